@@ -28,7 +28,7 @@ Definition of_dres (d : dres) : exc string :=
   | DOk s => Ret s
   | DOverflow => Raise (OpError 1)
   | DUnmodelled => Raise (OpError 2)
-  | DBounds | DSyntax | DErr => Raise ValueError
+  | DBounds | DSyntax | DErr | DBadInput => Raise ValueError
   end.
 Definition of_tres (t : tres string) : exc string :=
   match t with
@@ -191,6 +191,20 @@ Ltac crunch_step :=
       tryif strict_sub x then fail else (first [is_var x; destruct x | destruct x eqn:?])
   end.
 Ltac crunch := repeat (crunch_step; cbn [negb andb orb cmp_op CompOpp option_map]; try discriminate).
+(* integer equality tests with the literal on the left (`1 == x`): literal to the right, as the model writes them *)
+Ltac zeqb_norm :=
+  repeat match goal with
+  | |- context [Z.eqb (Zpos ?p) ?x] =>
+    lazymatch x with Zpos _ => fail | Z0 => fail | Zneg _ => fail | _ => rewrite (Z.eqb_sym (Zpos p) x) end
+  | |- context [Z.eqb Z0 ?x] =>
+    lazymatch x with Zpos _ => fail | Z0 => fail | Zneg _ => fail | _ => rewrite (Z.eqb_sym Z0 x) end
+  end.
+(* what is left after the case analysis: trivial, or contradictory / equal by integer arithmetic *)
+Ltac fin :=
+  try exact Logic.I; try reflexivity; try congruence;
+  try (exfalso; lia);
+  try (repeat match goal with H : (_ =? _) = true |- _ => apply Z.eqb_eq in H; subst end;
+       first [reflexivity | congruence]).
 
 (* ---------- priority 1: _get_is_in_bounds ---------- *)
 Lemma gen5_in_bounds md r p :
@@ -214,7 +228,7 @@ Ltac fields r :=
   change (s_format_number (rep r)) with (Some (r_fmt r)) in *;
   change (s_min_point (rep r)) with (@None tp) in *;
   change (s_max_point (rep r)) with (@None tp) in *.
-Ltac pre := code5_prelude_unfold; ops_unfold; code5_prelude_unfold; cbv beta iota delta [lift].
+Ltac pre := code5_prelude_unfold; ops_unfold; code5_prelude_unfold; cbv beta iota delta [lift]; zeqb_norm.
 (* after `unfold` of the method at hand: unfold its helper callees (not the methods that have a lemma) *)
 Ltac open_code r := fields r; repeat (progress (code5_helpers_unfold; fields r)); pre.
 
@@ -243,7 +257,7 @@ Proof.
   rewrite Qcompare_antisym. reflexivity.
 Qed.
 
-Ltac run_all := code5_unfold; ops_unfold; code5_unfold; cbv beta iota delta [lift].
+Ltac run_all := code5_unfold; ops_unfold; code5_unfold; cbv beta iota delta [lift]; zeqb_norm.
 
 Lemma gen5_init md reps s d e : cmp_law md s e ->
   sim_res (fun o r => o = rep r) (py___init__ (mops md) reps s d e None None) (rec_make md reps s d e).
@@ -252,7 +266,7 @@ Proof.
   change (dur_make 0 0 0 0 0 0 0) with dzero.
   destruct reps as [n|], s as [s|], d as [d|], e as [e|]; cbn [negb andb orb];
     expose_cmp; try rewrite (L _ _ eq_refl eq_refl);
-    crunch; cbn [sim_res]; try exact Logic.I; try reflexivity; try congruence.
+    crunch; cbn [sim_res]; fin.
 Qed.
 
 Lemma gen5_get_next md r p : conflate None (py_get_next (mops md) (rep r) p) (get_next md r p).
